@@ -57,7 +57,12 @@ func TryAbsToRel(abs string) string {
 }
 
 // IsExtOnly checks whether path points to a file with no name but with
-// an extension, i.e. ".yaml"
+// an extension, i.e. ".yaml". The directory names "." and ".." are not
+// extensions.
 func IsExtOnly(path string) bool {
-	return filepath.Base(path) == filepath.Ext(path)
+	base := filepath.Base(path)
+	if base == "." || base == ".." {
+		return false
+	}
+	return base == filepath.Ext(path)
 }
